@@ -25,6 +25,8 @@ pub struct Prepared {
     /// CRAM: the model the structured layer mutates and its addressable slots (container, slot)
     pub cram_model: Option<cramfmt::Cram>,
     pub cram_targets: Vec<(usize, cramfmt::Target)>,
+    /// BCF: offsets of the typed-value descriptor bytes in the (inflated) stream
+    pub bcf_descriptors: Vec<usize>,
 }
 
 pub struct World {
@@ -102,6 +104,20 @@ pub fn prepare(item: Item, budget_us: f64, max_pos: usize) -> Prepared {
             }
         }
     }
+    // BCF typed-value descriptors (walker written from the specification)
+    let mut bcf_descriptors: Vec<usize> = vec![];
+    if matches!(item.kind, Kind::Bcf | Kind::BcfRaw) {
+        let stream: &[u8] = match (&resealer, item.kind) {
+            (Some(r), Kind::Bcf) => &r.payload,
+            _ => &item.bytes,
+        };
+        if item.kind == Kind::BcfRaw || resealer.is_some() {
+            bcf_descriptors = crate::walkers::bcf(stream).fields.iter().filter(|f| f.name.ends_with("descriptor")).map(|f| f.off).collect();
+            if !bcf_descriptors.is_empty() {
+                layers.push(Layer::BcfTyped);
+            }
+        }
+    }
     let mut cram_model = None;
     let mut cram_targets: Vec<(usize, cramfmt::Target)> = vec![];
     if item.kind == Kind::Cram {
@@ -130,7 +146,7 @@ pub fn prepare(item: Item, budget_us: f64, max_pos: usize) -> Prepared {
             }
         }
     }
-    let mut p = Prepared { item, layers, boundaries, resealer, payload_boundaries, cram_raw, cram_raw_boundaries, positions: vec![], cram_model, cram_targets };
+    let mut p = Prepared { item, layers, boundaries, resealer, payload_boundaries, cram_raw, cram_raw_boundaries, positions: vec![], cram_model, cram_targets, bcf_descriptors };
     p.positions = p
         .layers
         .iter()
@@ -138,6 +154,11 @@ pub fn prepare(item: Item, budget_us: f64, max_pos: usize) -> Prepared {
             let len = p.layer_len(l).max(p.item.bytes.len());
             let per_pos = (p.nsub(l) * p.item.kind.variants().len()) as f64 * (len as f64 * cost_per_byte(p.item.kind) + 15.0);
             let cap = ((budget_us / per_pos) as usize).clamp(40.min(max_pos), max_pos);
+            if l == Layer::BcfTyped {
+                let n = p.bcf_descriptors.len();
+                let stride = n.div_ceil(cap.max(1)).max(1);
+                return p.bcf_descriptors.iter().copied().step_by(stride).collect();
+            }
             if l == Layer::CramStruct {
                 // slots, block ids first: all of them while the budget allows, then a stride over the rest
                 let n = p.cram_targets.len();
@@ -160,6 +181,7 @@ impl Prepared {
             Layer::Outer | Layer::CramSealed => self.item.bytes.len(),
             Layer::Inflated => self.resealer.as_ref().map(|r| r.payload.len()).unwrap_or(0),
             Layer::CramRawSealed | Layer::CramStruct => self.cram_raw.as_ref().map(|r| r.len()).unwrap_or(self.item.bytes.len()),
+            Layer::BcfTyped => self.resealer.as_ref().map(|r| r.payload.len()).unwrap_or(self.item.bytes.len()),
         }
     }
 
@@ -168,6 +190,7 @@ impl Prepared {
             Layer::Outer | Layer::CramSealed => &self.boundaries,
             Layer::Inflated => &self.payload_boundaries,
             Layer::CramRawSealed | Layer::CramStruct => &self.cram_raw_boundaries,
+            Layer::BcfTyped => &self.payload_boundaries,
         }
     }
 
@@ -177,6 +200,7 @@ impl Prepared {
             Layer::Outer | Layer::Inflated => 7,
             Layer::CramSealed | Layer::CramRawSealed => 6,
             Layer::CramStruct => cramfmt::STRUCT_VALUES.len(),
+            Layer::BcfTyped => mutate::BCF_LENS.len() * mutate::BCF_TYPES.len(),
         }
     }
 
@@ -200,6 +224,14 @@ impl Prepared {
                 let r = self.resealer.as_ref().expect("resealer");
                 if which == 6 { r.truncated(pos) } else { r.with_byte(pos, mutate::subst(r.payload[pos], which)) }
             }
+            Layer::BcfTyped => match (&self.resealer, self.item.kind) {
+                (Some(r), Kind::Bcf) => r.with_byte(pos, mutate::bcf_descriptor(which)),
+                _ => {
+                    let mut v = self.item.bytes.clone();
+                    v[pos] = mutate::bcf_descriptor(which);
+                    v
+                }
+            },
             Layer::CramStruct => {
                 let mut model = self.cram_model.clone().expect("cram model");
                 let (ci, t) = self.cram_targets[pos];
@@ -407,6 +439,8 @@ impl World {
             let (ci, t) = it.cram_targets[pos];
             let d = cramfmt::apply_target(&mut model, ci, t, which, None);
             format!("{d} [{}]", cramfmt::STRUCT_VALUES[which])
+        } else if layer == Layer::BcfTyped {
+            format!("typed descriptor byte {pos} <- {:#04x}", mutate::bcf_descriptor(which))
         } else {
             format!("byte {pos} {}", crate::mutate::SUBST_NAMES[which])
         }
